@@ -97,6 +97,7 @@ def run_tensor_ops(rep, drv, rng, n_cases, maxdim, maxwires, maxdepth, work, pea
         cases.append(e)
     lines = ["teval " + tl.tok_texpr(e) for e in cases]
     answers = drv.ask_many(lines)
+    tl.FORM_COUNTS.clear()
     for e, line, model in zip(cases, lines, answers):
         value = [None]
 
@@ -129,6 +130,8 @@ def run_tensor_ops(rep, drv, rng, n_cases, maxdim, maxwires, maxdepth, work, pea
         if real != model:
             rep.disagree("tensor-ops", dict(expr=repr(e)[:3000], line=line[:3000]),
                          real[:3000], model[:3000])
+    for form, n in sorted(tl.FORM_COUNTS.items()):
+        rep.count("tensor-ops.leaf_array_form:" + form, n)
 
 
 
@@ -337,7 +340,9 @@ def oracle_case(rep, rng, subseed, maxdim, maxwires, cap, snake_cap):
     def rand_t(dom, cod):
         """A real Tensor and, independently of it, the matrix of the same entries."""
         data = tl.rand_entries(rng, size(dom) * size(cod))
-        return (Tensor(D(dom), D(cod), list(data)),
+        form = rng.choice(tl.ARRAY_FORMS)       # container, shape and memory layout of the argument
+        rep.count("oracle.array_form:" + form)
+        return (Tensor(D(dom), D(cod), tl.array_in_form(dom, cod, data, form)),
                 np.array(data, dtype=complex).reshape(size(dom), size(cod)))
     (f, mf), (f2, mf2) = rand_t(a, b), rand_t(b, c)
     (g, mg), (g2, mg2) = rand_t(d, e), rand_t(e, k)
